@@ -114,7 +114,7 @@ func JSONGetNaturalLanguageField(val *fastjson.Value, prop string) NaturalLangua
 		ob.Visit(func(key []byte, v *fastjson.Value) {
 			l := LangRefValue{}
 			l.Ref = LangRef(key)
-			l.Value = unescape(v.GetStringBytes())
+			l.Value = append(Content{}, v.GetStringBytes()...)
 			if l.Ref != NilLangRef || len(l.Value) > 0 {
 				n = append(n, l)
 			}
